@@ -38,6 +38,20 @@ func c18Sizes(p core.Params) []int {
 
 var c18Modes = []string{"token", "position", "token-pair", "position-pair"}
 
+// long histories: (block size, requests) — many block boundaries, content checked
+// at every doubling of the request count and at the end
+func c18Long(p core.Params) [][2]int {
+	n := p.Pick(200000, 1500000)
+	out := [][2]int{}
+	for _, s := range []int{1, 2, 3, 7, 64, 1000, 1024, 1025} {
+		out = append(out, [2]int{s, n})
+	}
+	for _, s := range []int{8192, 16384, 20000, 65536, 100000} {
+		out = append(out, [2]int{s, 4*s + 3})
+	}
+	return out
+}
+
 type c18obj struct {
 	tok *token.Token
 	pos *position.Position
@@ -66,18 +80,26 @@ func c18holds(o c18obj) bool {
 func init() {
 	core.Register(&core.Check{
 		ID:   "C18",
-		Rule: "cases = {token,position} pool x {single, two interleaved pools} x block size (1..64 and boundary sizes; thorough 1..300 and up to 4097); each case is a history of 4*size+3 Get calls with all prefixes checked; non-trivial = history crossed at least one block boundary; distinct by (mode, size)",
+		Rule: "cases = {token,position} pool x {single, two interleaved pools} x block size (1..64 and boundary sizes; thorough 1..300 and up to 4097); each case is a history of 4*size+3 Get calls with all prefixes checked, plus long histories (200k / 1.5M requests for sizes 1,2,3,7,64,1000,1024,1025 and 4*size+3 requests for sizes 8192..100000) checked at every doubling and at the end; non-trivial = history crossed at least one block boundary; distinct by (mode, size, requests)",
 		Assumptions: []string{
 			"the public Pool API (NewPool, Get) is the only way the library obtains tokens and positions",
 			"block size 0 (Get returns nil) is outside the property's quantifier (positive sizes)",
 		},
-		Plan:       func(p core.Params) int { return len(c18Sizes(p)) * len(c18Modes) },
+		Plan:       func(p core.Params) int { return (len(c18Sizes(p)) + len(c18Long(p))) * len(c18Modes) },
 		Exhaustive: func(p core.Params) bool { return true },
 		Run: func(c *core.Ctx, idx int) {
 			sizes := c18Sizes(c.P)
-			size := sizes[idx/len(c18Modes)]
 			mode := c18Modes[idx%len(c18Modes)]
-			w := core.Witness{Cfg: map[string]string{"mode": mode, "block_size": fmt.Sprint(size)}}
+			var size, requests int
+			long := false
+			if k := idx / len(c18Modes); k < len(sizes) {
+				size = sizes[k]
+				requests = 4*size + 3
+			} else {
+				l := c18Long(c.P)[k-len(sizes)]
+				size, requests, long = l[0], l[1], true
+			}
+			w := core.Witness{Cfg: map[string]string{"mode": mode, "block_size": fmt.Sprint(size), "requests": fmt.Sprint(requests)}}
 			rnd := core.NewRand(c.P.Seed, "C18", idx)
 			isTok := mode == "token" || mode == "token-pair"
 			npools := 1
@@ -93,7 +115,7 @@ func init() {
 					pp = append(pp, position.NewPool(size))
 				}
 			}
-			total := (4*size + 3) * npools
+			total := requests * npools
 			seen := map[interface{}]int{}
 			var objs []c18obj
 			verifyAll := func(at int) bool {
@@ -143,7 +165,7 @@ func init() {
 					c18write(o)
 					objs = append(objs, o)
 					c.Add("gets", 1)
-					if per[k]%size == 0 || per[k]%size == 1 || i%64 == 0 {
+					if (!long && (per[k]%size == 0 || per[k]%size == 1 || i%64 == 0)) || (long && i&(i-1) == 0) {
 						c.Add("full_content_checks", 1)
 						if !verifyAll(i + 1) {
 							ok = false
@@ -162,7 +184,7 @@ func init() {
 			c.Max("max_block_size", int64(size))
 			c.Max("max_requests_in_one_history", int64(total))
 			if total > size {
-				c.NonTrivial([]byte(mode), []byte(fmt.Sprint(size)))
+				c.NonTrivial([]byte(mode), []byte(fmt.Sprint(size, requests)))
 				c.Add("block_boundaries_crossed", int64(total/size))
 			}
 			if c.WantSample() {
